@@ -115,7 +115,7 @@ func (x *Exec) eval(e ast.Expr, st *State, env *Env) Value {
 			}
 			if len(x.autoTrig) > 0 && strings.Contains(i.T, "!") && !strings.ContainsAny(i.T, "() ") {
 				// ghost map read at a bare bound variable: candidate trigger term for that variable
-				x.autoTrig[len(x.autoTrig)-1] = append(x.autoTrig[len(x.autoTrig)-1], "("+app("select", m.T, i.T)+")")
+				x.autoTrig[len(x.autoTrig)-1] = append(x.autoTrig[len(x.autoTrig)-1], "ghost:("+app("select", m.T, i.T)+")")
 			}
 			return Scalar{app("select", m.T, i.T), ti}
 		}
